@@ -123,5 +123,37 @@ for mode,name in enumerate(["seq-out-of-range","bad-byte-in-field","empty-field"
 c04.append(job("bad-seq-11-digits","auparse","VH_HeaderBad",["C04/"],{"mode":0,"seqdigits":11},Q,bounds="sequence of 11 symbolic digits >= 2^32"))
 C["C04"]={"jobs":c04,"assumptions":PARSE_ASSUME+["expected numeric values are by construction (Horner over the same digit variables), not by parsing","time.Time.String is an uninterpreted injective rendering (the claim is about which instant reaches it)"],
    "outside":["bodies longer than 6 symbolic bytes","symbolic non-ASCII bytes in the body (concrete ones are in the hostile list)","stricter header grammars than first '(' '.' ':' ')' (the property does not define one)"]}
+
+c20=[job("types-unnamed","auparse","VH_TypeRoundTrip",["C20/"],{"range":1},Q,bounds="record type symbolic over all codes < 1000 or >= 2600 (String -> GetAuditMessageType, MarshalText -> UnmarshalText)"),
+     job("types-1000-1399","auparse","VH_TypeRoundTrip",["C20/"],{"range":2},Q,bounds="record type symbolic over 1000..1399 (one path set per table entry)"),
+     job("types-1400-2599","auparse","VH_TypeRoundTrip",["C20/"],{"range":3},Q,bounds="record type symbolic over 1400..2599"),
+     job("type-names","auparse","VH_TypeNames",["C20/"],{},Q,bounds="every entry of both record-type tables (exhaustive, concrete)"),
+     job("errno","auparse","VH_ErrnoTables",["C20/"],{},Q,bounds="every entry of the errno tables (exhaustive, concrete)"),
+     job("arch-syscalls","auparse","VH_ArchSyscallTables",["C20/"],{},Q,bounds="every architecture and every (arch, syscall) entry (exhaustive, concrete)",max_steps=80000000),
+     job("rule-tables","rule","VH_RuleTables",["C20/"],{},Q,bounds="every field/operator/comparison entry, reverse arch and reverse syscall tables (exhaustive, concrete)",max_steps=80000000)]
+C["C20"]={"jobs":c20,"assumptions":["tables are finite data: apart from the 16-bit record-type domain and the UNKNOWN[n] text path the check is a case split per entry, decided by evaluating the real lookups on the real tables (solver only prunes)"],
+   "outside":["the YAML decoder (gopkg.in/yaml.v3 is reflection; the normalisation table enters through a table image regenerated natively)"]}
+
+FC=["exe","cwd","name","proctitle","cmd","data-tty","data-usertty","acct"]
+c12=[]
+for i,k in enumerate(FC):
+    for n,tiers in ((1,QO),(3,QO),(4,T),(2,T)):
+        c12.append(job(f"field-{k}-len{n}","auparse","VH_EncodedField",["C12/"],{"case":i,"len":n},tiers,bounds=f"{k}: value of {n} symbolic bytes over 0x01..0xFF (proctitle 0x00..0xFF), written quoted (all bytes safe) or as upper-case hex (some byte unsafe)"))
+c12+=[job("execve-2x2","auparse","VH_Execve",["C12/"],{"argc":2,"len":2},Q,bounds="EXECVE argc=2, each argument 2 symbolic bytes, quoted or hex"),
+      job("execve-3x2","auparse","VH_Execve",["C12/"],{"argc":3,"len":2},T,bounds="EXECVE argc=3, each argument 2 symbolic bytes"),
+      job("execve-1x4","auparse","VH_Execve",["C12/"],{"argc":1,"len":4},T,bounds="EXECVE argc=1, argument 4 symbolic bytes")]
+for f,name in enumerate(["ipv4","ipv6","unix","netlink","other"]):
+    c12.append(job("saddr-"+name,"auparse","VH_Saddr",["C12/"],{"family":f,"len":3},Q,bounds={"ipv4":"4 symbolic address bytes, symbolic port","ipv6":"3 symbolic + 13 concrete address bytes, symbolic port (address text through the net.IP.String summary)","unix":"path of 3 symbolic non-NUL bytes, with and without bytes after the terminator","netlink":"10 symbolic bytes, passed through","other":"symbolic family byte not in {1,2,10,16}, passed through"}[name]))
+c12.append(job("saddr-unix-len5","auparse","VH_Saddr",["C12/"],{"family":2,"len":5},T,bounds="unix path of 5 symbolic bytes"))
+for n in (1,2,3,6):
+    c12.append(job(f"plain-len{n}","auparse","VH_PlainField",["C12/"],{"len":n},Q if n<=3 else T,bounds=f"plain key=<v>, v of {n} symbolic printable bytes without blanks/quotes"))
+c12.append(job("plain-len5","auparse","VH_PlainField",["C12/"],{"len":5},T,bounds="plain key=<v>, v of 5 symbolic bytes"))
+for w,name in enumerate(["result-words","result-arbitrary","unset-ids","exit-errno","arch-syscall"]):
+    c12.append(job("derived-"+name,"auparse","VH_Derived",["C12/"],{"what":w,"len":3},Q if name!="arch-syscall" else T,
+       bounds={"result-words":"success=yes|no, res=1|0|success|failed","result-arbitrary":"res=<3 symbolic bytes>: result is success or fail","unset-ids":"auid/ses/old-auid = -1, 4294967295 or a symbolic uint32 written in decimal","exit-errno":"exit=-N for every errno in the table, symbolic non-negative codes, an unknown negative code","arch-syscall":"every architecture x every syscall number of its table, plus an unknown number"}[name]))
+c12.append(job("derived-arch-syscall-x86","auparse","VH_Derived",["C12/"],{"what":4,"len":3,"onlyx86":1},QO,bounds="x86_64: every syscall number of its table, plus an unknown number"))
+C["C12"]={"jobs":c12,"assumptions":PARSE_ASSUME+["the kernel's encoding rule (audit_log_untrustedstring) is re-implemented in the harness: double quotes iff all bytes in 0x21..0x7e and not '\"', else upper-case hex",
+   "values obey the property's exclusions (no leading/trailing quote character, no trailing backslash) and are not one of the placeholders","name tables themselves are the oracle for the name cases (C20 checks the tables)"],
+   "outside":["values longer than 4-5 bytes","correctness of net.IP.String (summarised as an injective rendering)"]}
 json.dump(C,open('/verif/checks.json','w'),indent=1)
 print({k:len(v["jobs"]) for k,v in C.items()})
